@@ -18,6 +18,9 @@ open Verif.Model.Sse Verif.Model.HttpDecide
 
 variable {P : Type}
 
+/-- a decoder that decodes nothing (for examples about failures) -/
+def toyDecN : Dec Nat := ⟨fun _ => none⟩
+
 /-- SSE grammar.  For EVERY list of events and EVERY conformant choice of encoding — event
 field present or absent and of any type, a space after the colon or not (per field line),
 comment / `id:` / `retry:` lines before any field line and before the blank line, any number
@@ -156,6 +159,52 @@ theorem c11_session_header_latest (dec : Dec P) (s : Option String) (rs : List (
     (k : Nat) (hk : k < rs.length) :
     (run dec s rs).hdrs[k]? = some (hdr ((issued (rs.take k)).getLast?.or s)) :=
   run_hdr_latest dec s rs k hk
+
+/-- Options do not matter: whatever `enable_streaming`, `max_retries`, `retry_delay`, `timeout`,
+`max_concurrent_requests` and `user_agent` are set to, every answer — failures and unusual bodies
+included — is turned into the same messages and the same session headers. -/
+theorem c11_options_irrelevant (o1 o2 : Options) (dec : Dec P) (s : Option String) (rs : List (Req × Behaviour)) :
+    (runWith o1 dec s rs).outs = (runWith o2 dec s rs).outs ∧ (runWith o1 dec s rs).hdrs = (runWith o2 dec s rs).hdrs ∧
+    (runWith o1 dec s rs).outs = rs.flatMap (fun p => outcome dec p.1.id p.2) :=
+  ⟨rfl, rfl, run_outs dec s rs⟩
+
+/-- Repeated failures leave nothing behind: after ANY number of failing requests (the same
+failure twice, three times, …, any mixture) the following requests are processed exactly as if
+nothing had happened before — no counter, no fail-fast state. -/
+theorem c11_repeated_failures (o : Options) (dec : Dec P) (s : Option String) (fs rest : List (Req × Behaviour))
+    (hf : ∀ p ∈ fs, Failure dec p.2 ∧ p.1.id.isSome) :
+    (runWith o dec s (fs ++ rest)).outs =
+      fs.map (fun p => Out.synth p.1.id) ++ rest.flatMap (fun p => outcome dec p.1.id p.2) := by
+  simp only [runWith, run_outs, List.flatMap_append]
+  congr 1
+  clear rest
+  induction fs with
+  | nil => rfl
+  | cons p ps ih =>
+    obtain ⟨hfail, hid⟩ := hf p (by simp)
+    obtain ⟨r, b⟩ := p
+    cases hi : r.id with
+    | none => simp [hi] at hid
+    | some i =>
+      simp only [List.flatMap_cons, List.map_cons, hi, outcome_failure dec i b hfail]
+      rw [ih (fun q hq => hf q (by simp [hq]))]
+      rfl
+
+example :
+    (runWith {} toyDecN none ((List.replicate 5 (⟨some (.int 1)⟩, Behaviour.exc .other)) ++ [(⟨some (.int 2)⟩, .exc .timeout)])).outs
+      = List.replicate 5 (.synth (some (.int 1))) ++ [.synth (some (.int 2))] := by
+  decide
+
+/-- Several transports in one process, their POSTs interleaved in any order: what instance `i`
+delivers and the session headers it sends are what it would deliver and send alone — no state is
+shared between instances, equal ids on different instances do not meet. -/
+theorem c11_instances_independent (dec : Dec P) (σ : Nat → Option String) (i : Nat)
+    (evs : List (Nat × Req × Behaviour)) :
+    (runInterleaved dec σ evs).filterMap (fun t => if t.1 = i then some t.2 else none)
+      = runSteps dec (σ i) (ofInstance i evs) ∧
+    (runSteps dec (σ i) (ofInstance i evs)).flatMap (·.1) = (run dec (σ i) (ofInstance i evs)).outs ∧
+    (runSteps dec (σ i) (ofInstance i evs)).map (·.2) = (run dec (σ i) (ofInstance i evs)).hdrs :=
+  ⟨runInterleaved_instance dec i evs σ, (runSteps_run dec _ _).1, (runSteps_run dec _ _).2⟩
 
 /-- Closing the connection.  What is delivered is exactly what the POSTs completed before the
 close deliver (each of those requests has its one terminal message by the theorems above);
